@@ -267,7 +267,7 @@ functions the newest rules read (the text -> integer helpers, the token -> membe
 the hash table's insert / lookup / delete / resize, the string set operation, the deep-copy routines, every function that releases
 a field or a global, the number state of the tokener, the member-name ownership of the tokener). What it found is listed with the
 false alarms of 7.2. `tools/par_regress.py` runs the whole regression - unchanged tree, the 72 refactorings x 20 checks, the 180
-seeded changes, the ~260 developer mutants - in parallel scratch worktrees with private analysis caches (about 40 minutes on 16
+seeded changes, the ~225 developer mutants - in parallel scratch worktrees with private analysis caches (494 tasks, about 70 minutes on 16
 cores), never touching /repo or /verif/evidence.
 
 A fourth suite, **B4-c03 .. B4-c17** (six refactorings aimed at the code the fifth-round rules read), found two more: the old
